@@ -374,6 +374,35 @@ func main() {
 		emit("both", ops, "")
 	}
 
+	// 1e. long key lists: PutMany of n distinct keys, one deleted, GetMany over all of them in a shuffled order with
+	//     repeated and absent keys (a backend may cut a long list into several requests: every answer must still
+	//     stand at the position of its key and carry that key)
+	longNs := []int{63, 64, 65, 66, 100, 129, 200}
+	if thorough {
+		longNs = append(longNs, 127, 128, 255, 256, 257, 511, 513, 1000)
+	}
+	for i, n := range longNs {
+		r := prng.New(fl.Seed, "C03long", uint64(i))
+		var recs []kvx.RecIn
+		var ks []string
+		for j := 0; j < n; j++ {
+			k := fmt.Sprintf("k/%03d", j)
+			recs = append(recs, kvx.RecIn{Key: k, Val: 1 + j%3})
+			ks = append(ks, k)
+		}
+		gone := ks[r.Intn(n)]
+		for j := 0; j < 5; j++ {
+			ks = append(ks, ks[r.Intn(n)], fmt.Sprintf("absent/%d", j))
+		}
+		for a := len(ks) - 1; a > 0; a-- {
+			b := r.Intn(a + 1)
+			ks[a], ks[b] = ks[b], ks[a]
+		}
+		ops := []kvx.Op{{K: "N", Recs: recs}, {K: "D", Key: gone}, {K: "M", Keys: ks}, {K: "G", Key: ks[len(ks)-1]},
+			{K: "M", Keys: ks[:n/2]}, {K: "M", Keys: ks[n/2:]}}
+		emit("both", ops, "")
+	}
+
 	// 2. random sequences over the full alphabet
 	nrand, n := 1000, 30
 	if thorough {
